@@ -138,6 +138,14 @@ def run(ctx):
         kk = 3 + 2 * (k + 1)
         b = terms[(Y, kk)][0] if kk < 24 else terms[(Y + 1, kk - 24)][0]
         return list(range(a, b))
+    def smdays_stepped(x):
+        k, back = x
+        m = t.m(I.call('SixtyCycleMonth::from_index', [Y + 1, (k + back) % 12 if False else 0]), 'next', k - 12) if back else t.m(I.call('SixtyCycleMonth::from_index', [Y - 1, 11]), 'next', k + 1)
+        ds = t.m(m, 'get_days')
+        return ([cm2.n_of(t.m(d, 'get_solar_day')) for d in ds], py(t.m(t.m(m, 'get_sixty_cycle_year'), 'get_year')))
+    table(ctx, 'PETE-SCENARIO', 'SixtyCycleMonth::get_days:stepped', [(k, b) for k in (0, 1, 10, 11) for b in (True, False)], smdays_stepped, lambda x: (smdays_orc(x[0]), Y),
+          'a sexagenary month reached by stepping backwards / forwards across Lichun is the same month (same year, same days) as the one built by index', str, fn_site(p, 'SixtyCycleMonth::next'))
+
     terms_j = typical_terms(range(Y - 1, Y + 4), shift=dict((i, -12) for i in range(24)))
     cm3 = CalModel(I, terms_j, lmonths)
 
